@@ -1,8 +1,8 @@
 package main
 
 import (
-	"go/types"
 	"fmt"
+	"go/types"
 	"regexp"
 	"strings"
 
@@ -11,10 +11,10 @@ import (
 
 func init() {
 	register(&ruleSet{
-		id:         "C14",
-		title:      "the command line is a faithful wrapper",
-		run:        runC14,
-		decided:    "exit discipline: every error source of cli.Run is tested, its failure edge writes a diagnostic to stderr and returns a non-zero constant, `return 0` is only reachable with every dominating error source known nil, and main passes Run's result to os.Exit unchanged; argument fidelity: the program text handed to the interpreter is the -f file's bytes or the first argument unchanged, the file list is the remaining arguments in order, each opened once and handed over as the reader itself (no read-ahead wrapper), stdin as os.Stdin under the name <stdin>, the selectors are the flag accumulator unchanged, output goes to os.Stdout; -o: one JSON string, obtained after a successful run, written as data to stdout or to a truncated file, refused for several inputs; inside the interpreter the roots selected for one JSON value are collected in a list created for that value." +
+		id:    "C14",
+		title: "the command line is a faithful wrapper",
+		run:   runC14,
+		decided: "exit discipline: every error source of cli.Run is tested, its failure edge writes a diagnostic to stderr and returns a non-zero constant, `return 0` is only reachable with every dominating error source known nil, and main passes Run's result to os.Exit unchanged; argument fidelity: the program text handed to the interpreter is the -f file's bytes or the first argument unchanged, the file list is the remaining arguments in order, each opened once and handed over as the reader itself (no read-ahead wrapper), stdin as os.Stdin under the name <stdin>, the selectors are the flag accumulator unchanged, output goes to os.Stdout; -o: one JSON string, obtained after a successful run, written as data to stdout or to a truncated file, refused for several inputs; inside the interpreter the roots selected for one JSON value are collected in a list created for that value." +
 			" Every Evaluator is built by the one constructor, which itself installs the runtime and program functions (a selector's evaluator knows what the program's does); the decode loop ends on io.EOF alone; GetRootJson guards the nil root." +
 			" Every successfully opened path and every successfully evaluated selector contributes an input / a root on every path (no way round the append).",
 		notDecided: "the README's `-r E` ≡ `BEGINFILE { $ = E }` equivalence as such (a relation between two evaluator runs); stdin-vs-file equivalence beyond `the same reader interface is passed through`.",
@@ -239,6 +239,34 @@ func c14R2(c *Ctx) {
 			c.check(hdr != nil && !canSkip(okEdge, app.Block(), hdr), "R2", "input-file-not-skipped", p.InstrPos(app), "every successfully opened path is passed to the interpreter", "after a path was opened successfully the next path can be reached without the file having been added to the inputs: that input is silently ignored (no output, no error, status 0)")
 		}
 	}
+	// standard input is an input only when no file was named: the stdin entry is built under the
+	// fact len(file arguments) == 0
+	{
+		n := 0
+		allInstrs(run, func(in ssa.Instruction) {
+			st, ok := in.(*ssa.Store)
+			if !ok {
+				return
+			}
+			sf, ok := fieldOfAddr(st.Addr)
+			if !ok || !sf.Is("InputFile", "Reader") || !strings.Contains(p.Render(st.Val), "Stdin") {
+				return
+			}
+			n++
+			noFiles := false
+			for _, rl := range FactsOf(run).At(st.Block()).Rels() {
+				if rl.op == relEQ && isLenCall(rl.x) {
+					if k, ok := constInt(rl.y); ok && k == 0 && strings.Contains(p.Render(rl.x), "flag.Args()") {
+						noFiles = true
+					}
+				}
+			}
+			c.check(noFiles, "R2", "stdin-only-without-files", p.InstrPos(st), "standard input is read only when no input file was named", "the standard-input entry is built on a path where `no file arguments` is not established: with stdin redirected (cron, a pipe, /dev/null) the named files are never opened")
+		})
+		if n == 0 {
+			c.undecided("R2", "stdin-only-without-files", p.Pos(run.Pos()), "no InputFile with Reader os.Stdin is built in Run")
+		}
+	}
 	c.check(okFiles, "R2", "input-files", p.InstrPos(ep), "files in argument order, each the opened file itself", "the input list passed to the interpreter is not `for each path in order: {Name: path, Reader: os.Open(path)}` / `{<stdin>, os.Stdin}`: "+files)
 	sel := p.Render(a[2])
 	c.check(sel == "var:cli.multiFlag" || sel == "*var:cli.multiFlag", "R2", "selectors", p.InstrPos(ep), "the -r accumulator, unchanged", "the selector list passed is "+sel)
@@ -375,7 +403,10 @@ func rootsPerValue(c *Ctx, rule string) {
 						c.check(len(extra) == 0, rule, "selector-root-unconditional", p.InstrPos(call), "the result of every selector is appended", "the root a selector yields is only processed under {"+strings.Join(extra, " ; ")+"}: a selector whose value is filtered out leaves $ (and what -o writes) at the previous root")
 						// and no way round the append: once the selector evaluated without error, the next
 						// selector is not reached without appending its result
-						for _, l := range rangeLoops(ep, func(v ssa.Value) bool { _, isP := v.(*ssa.Parameter); return isP && strings.HasPrefix(v.Type().String(), "[]string") }) {
+						for _, l := range rangeLoops(ep, func(v ssa.Value) bool {
+							_, isP := v.(*ssa.Parameter)
+							return isP && strings.HasPrefix(v.Type().String(), "[]string")
+						}) {
 							if !l.Body.Dominates(sel.Block()) {
 								continue
 							}
@@ -526,6 +557,13 @@ func evaluatorConstruction(c *Ctx, rule string) {
 		}
 		return true
 	}
+	inCtor := map[string]ssa.Instruction{}
+	defer func() {
+		rt, pf := inCtor["runtime functions"], inCtor["program functions"]
+		if rt != nil && pf != nil {
+			c.check(dominatesInstr(rt, pf), rule, "program-functions-after-runtime-functions", p.InstrPos(pf), "the program's functions are installed after the runtime functions", "the runtime functions are installed after the program's functions into the same root frame: a user function named printf, json or num is replaced by the builtin and never called")
+		}
+	}()
 	for _, inst := range installers {
 		var where []string
 		okInst := false
@@ -543,27 +581,31 @@ func evaluatorConstruction(c *Ctx, rule string) {
 				continue
 			}
 			// fn is the constructor, or called by it on every path (at most one call in between)
-			reaches := func(callee *ssa.Function, depth int) bool { return false }
-			reaches = func(callee *ssa.Function, depth int) bool {
+			// the instruction of the constructor itself that stands for the installation
+			var reaches func(callee *ssa.Function, at ssa.Instruction, depth int) ssa.Instruction
+			reaches = func(callee *ssa.Function, at ssa.Instruction, depth int) ssa.Instruction {
 				if callee == ne {
-					return true
+					return at
 				}
 				if depth > 1 {
-					return false
+					return nil
 				}
 				for _, cs := range p.CallSitesOf(callee) {
 					if p.inTestFile(cs.Parent()) {
 						continue
 					}
-					if coversReturns(cs.Parent(), cs) && reaches(cs.Parent(), depth+1) {
-						return true
+					if coversReturns(cs.Parent(), cs) {
+						if in := reaches(cs.Parent(), cs, depth+1); in != nil {
+							return in
+						}
 					}
 				}
-				return false
+				return nil
 			}
-			if reaches(fn, 0) {
+			if in := reaches(fn, anchor, 0); in != nil {
 				okInst = true
 				pos = p.InstrPos(anchor)
+				inCtor[inst.name] = in
 			}
 		}
 		c.check(okInst, rule, "installed-by-constructor "+inst.name, pos, "installed on every path of the constructor", "NewEvaluator does not install the "+inst.name+" on every path to its return (the installing code is in {"+strings.Join(dedup(where), ", ")+"}): an evaluator built for a root selector lacks them, so `-r 'num($.x)'` fails where `BEGINFILE { $ = num($.x) }` works")
